@@ -256,9 +256,11 @@ def fresh_interpreter_outcomes(keys, cache_env=None):
     return out
 
 
-def explore(ctx, alphabet, depth, cache_env, fresh):
+def explore(ctx, alphabet, depth, cache_env, fresh, warn_env=None):
     if cache_env is None: os.environ.pop("EINX_CACHE_SIZE", None)
     else: os.environ["EINX_CACHE_SIZE"] = cache_env
+    if warn_env is None: os.environ.pop("EINX_WARN_ON_RETRACE", None)
+    else: os.environ["EINX_WARN_ON_RETRACE"] = warn_env
     hists = [tuple(h) for d in range(1, depth + 1) for h in itertools.product(alphabet, repeat=d)]
     chunks = list(runner.chunks(hists, 24))
     import random
@@ -272,11 +274,11 @@ def explore(ctx, alphabet, depth, cache_env, fresh):
     states = set(); transitions = 0; outcomes = collections.defaultdict(set)
     for h, out, inv, st in results:
         transitions += len(h); states.add(st); outcomes[h[-1]].add(json.dumps(out))
-        tag = f"EINX_CACHE_SIZE={cache_env}" if cache_env is not None else "default cache"
+        tag = (f"EINX_CACHE_SIZE={cache_env}" if cache_env is not None else "default cache") + (f", EINX_WARN_ON_RETRACE={warn_env}" if warn_env else "")
         if out != single.get(h[-1]):
             ctx.violation({"kind": "history", "last": h[-1], "history": " ; ".join(h[:-1]), "cache": str(cache_env), "got": out[0], "expected": (single.get(h[-1]) or ["?"])[0]},
                           f"[{tag}] after {list(h[:-1])} the call '{h[-1]}' gives {out[:2]} but {single.get(h[-1], ['?'])[:2]} as the only call on a pristine einx",
-                          {"history": list(h), "cache": cache_env})
+                          {"history": list(h), "cache": cache_env, "warn": warn_env})
         for b in inv:
             ctx.violation({"kind": "leak", "history": " ; ".join(h), "cache": str(cache_env), "what": b.split(":")[0]}, f"[{tag}] after {list(h)}: {b}", {"history": list(h), "cache": cache_env, "leak": True})
     for k, o in single.items():
@@ -290,20 +292,23 @@ def run(ctx):
     keys = list(ALPHABET)
     fresh = fresh_interpreter_outcomes(keys)
     total = trans = 0; states = set(); outs = collections.defaultdict(set)
-    plans = [(keys, 2, None)] if ctx.tier == "quick" else [(keys, 2, None), (SUB, 3, None), (keys, 2, "0"), (keys, 2, "1"), (SUB, 3, "1")]
-    for alphabet, depth, cache_env in plans:
+    # (alphabet, depth, EINX_CACHE_SIZE, EINX_WARN_ON_RETRACE): the retrace-warning wrapper sits between the cache and the traced function
+    plans = [(keys, 2, None, None), (SUB, 2, None, "2")] if ctx.tier == "quick" else [(keys, 2, None, None), (SUB, 3, None, None), (keys, 2, "0", None), (keys, 2, "1", None), (SUB, 3, "1", None),
+                                                                                      (SUB, 3, None, "2"), (SUB, 2, None, "1"), (SUB, 3, None, "3")]
+    for alphabet, depth, cache_env, warn_env in plans:
         fr = fresh if cache_env is None else fresh_interpreter_outcomes(alphabet, cache_env)
-        n, t, st, oc = explore(ctx, alphabet, depth, cache_env, fr)
+        if warn_env is not None: fr = {}
+        n, t, st, oc = explore(ctx, alphabet, depth, cache_env, fr, warn_env)
         total += n; trans += t; states |= {(cache_env, s) for s in st}
         for k, v in oc.items(): outs[k] |= v
-    os.environ.pop("EINX_CACHE_SIZE", None)
+    os.environ.pop("EINX_CACHE_SIZE", None); os.environ.pop("EINX_WARN_ON_RETRACE", None)
     ctx.counters["calls_with_more_than_one_outcome_over_histories"] = sum(1 for v in outs.values() if len(v) > 1)
     ctx.counters["fresh_interpreter_references"] = len(fresh)
     for h in [("id c=2", "id c=2.0"), ("roll 1", "roll 1.0"), ("with-raise", "graph"), ("add fac", "add arr")]:
         ctx.sample({"history": list(h), "checked": "outcome of the last call == outcome as only call on pristine einx == fresh interpreter"})
     ctx.coverage = {
         "states": len(states), "transitions": trans, "traces_validated_against_impl": total, "exhaustive": True,
-        "alphabet": len(keys), "histories": total, "plans": [(len(a), d, c) for a, d, c in plans],
+        "alphabet": len(keys), "histories": total, "plans": [(len(a), d, c, w) for a, d, c, w in plans],
         "rule": "all call histories of length <= depth over the alphabet (no deduplication of histories), each on a re-imported pristine einx; state = per-operation "
                 "compile-cache sizes + with-stack + registry memo size (reported only); oracle: last outcome == single-call outcome == fresh-interpreter outcome",
     }
@@ -315,6 +320,8 @@ def run(ctx):
 def replay(d):
     if d.get("cache") is None: os.environ.pop("EINX_CACHE_SIZE", None)
     else: os.environ["EINX_CACHE_SIZE"] = d["cache"]
+    if d.get("warn") is None: os.environ.pop("EINX_WARN_ON_RETRACE", None)
+    else: os.environ["EINX_WARN_ON_RETRACE"] = d["warn"]
     h = tuple(d["history"])
     out, inv, _ = run_history(h)
     single, _, _ = run_history(h[-1:])
